@@ -797,6 +797,17 @@ impl World {
                 }
                 Some(vec![0])
             }
+            29 => {
+                // Permits e n: how many more messages the sink accepts (>= 999999: always ready)
+                let e = *a.first()? as usize;
+                let n = *a.get(1)?;
+                let mut s = self.eps[e].ws.lock().unwrap();
+                s.permits = if n >= 999_999 { None } else { Some(n as usize) };
+                if let Some(w) = s.tx_waker.take() {
+                    w.wake();
+                }
+                Some(vec![0])
+            }
             30 => {
                 // BridgeStart e sid: the stream moves into a bridge with a scripted local side
                 let e = *a.first()? as usize;
